@@ -145,9 +145,12 @@ Proof. exact monitor_model. Qed.
 Print Assumptions C20_monitor_model.
 
 (* Non-vacuity: seven failures of all kinds, then healthy: the retrying
-   initialisation is ready after 8 fetches and 31 s + 1 s + 1 s + 2 s of pauses
-   plus one client timeout (the slow answer); the pinned one is not ready; a
-   refresh after the cached document expired switches to the new document. *)
+   initialisation is ready after 8 fetches within heal_time (with the measured
+   constants: 31 s + 1 s + 1 s + 2 s of pauses plus one client timeout for the
+   slow answer = 36 s <= 42 s); the pinned one is not ready; a refresh after the
+   cached document expired switches to the new document; the monitor accepts
+   the model's observations of such a run.  Stated so that it survives a change
+   of the retry budget between 1 and 7 attempts. *)
 Example C20_nonvacuous :
   let fs := [FRefused; FReset; F500; F503; FMalformed; FTruncated; FSlow] in
   let d1 := mkDoc 11 12 13 14 15 16 in
@@ -155,10 +158,14 @@ Example C20_nonvacuous :
   let T := 1 * sec in
   let s := initialize_retrying fresh_mw (fresh_world (faults fs) d1 T) in
   let s' := run s [EScript [] d2; EAdvance (61 * 60 * sec); ERefresh] in
-  m_ready (fst s) = true /\ m_ep (fst s) = d1 /\ w_hits (snd s) = 8%N /\ w_now (snd s) = 36 * sec
-  /\ heal_time 7 T = 42 * sec /\ heal_bound 7 T = 119 * sec
+  budget_ok T = true
+  /\ m_ready (fst s) = true /\ m_ep (fst s) = d1 /\ w_hits (snd s) = 8%N
+  /\ Z.leb (w_now (snd s)) (heal_time 7 T) = true /\ heal_bound 7 T = 119 * sec
   /\ m_ready (fst (initialize_pinned fresh_mw (fresh_world (faults fs) d1 T))) = false
   /\ r_status (serve fresh_mw (mkReq PExcluded (1 * sec))) = 408
   /\ r_location (serve (fst s) (mkReq PGated (1 * sec))) = Some 12%N
-  /\ m_ep (fst s') = d2 /\ w_hits (snd s') = 9%N.
+  /\ m_ep (fst s') = d2 /\ w_hits (snd s') = 9%N
+  /\ check_case (model_case (faults fs) d1 T [mkReq PGated (40 * 1000000); mkReq PExcluded (40 * sec)]
+                            [OServe (mkReq PGated sec); OScript [] d2; OShift (61 * 60 * sec); ORefresh;
+                             OServe (mkReq PGated sec)]) = true.
 Proof. vm_compute. repeat split. Qed.
